@@ -75,6 +75,19 @@ def _route(vals):
     return 1 if tot(vals) % 3 == 1 else 0
 
 
+def _valid_rows(l):
+    """rows of a valid Clifford map (Hermitian phases, canonical commutation relations): only then does transforming the identity reproduce them"""
+    n2 = len(l)
+    if any(int(a[1]) % 2 for a in l):
+        return False
+    for i in range(n2):
+        for j in range(n2):
+            acq = sum(int(l[i][0][2 * q + 1]) * int(l[j][0][2 * q]) - int(l[i][0][2 * q]) * int(l[j][0][2 * q + 1]) for q in range(n2 // 2)) % 2
+            if acq != (1 if (i // 2 == j // 2 and i != j) else 0):
+                return False
+    return True
+
+
 def _pstr(a):
     return {0: '', 1: 'i', 2: '-', 3: '-i'}[int(a[1]) % 4] + ''.join('IXZY'[int(x) + 2 * int(z)] for x, z in zip(a[0][0::2], a[0][1::2]))
 
@@ -94,6 +107,15 @@ def PL(l, width=None):
 
 
 def CM(l):
+    if len(l) >= 2 and len(l) % 2 == 0 and len(l[0][0]) == len(l) and _route(l) == 1 and _valid_rows(l):
+        # the library's own way to a map: identity_map(N) updated IN PLACE (transforming the identity rows by a map gives that map's rows)
+        ROUTES[0] = False
+        try:
+            m = ST.identity_map(len(l) // 2)
+            m.transform_by(CM(l))
+        finally:
+            ROUTES[0] = True
+        return _reg(m, 'PL', [[[int(v) for v in a[0]], int(a[1])] for a in l])
     gs = GS([a[0] for a in l])
     ps = np.array([a[1] for a in l], dtype=I_)
     return _reg(ST.CliffordMap(gs, ps), 'PL', [[[int(v) for v in a[0]], int(a[1])] for a in l])
@@ -200,6 +222,21 @@ def guard(f, name='?'):
 
 
 # ---------------------------------------------------------------- gates
+def GEN(a, text_ok=False):
+    """a rotation generator in one of its equivalent forms: the Pauli object, the PauliMonomial with coefficient 1 (what poly[k] or .as_monomial() hand out), or -- where the
+    callee parses its argument -- the printed text; chosen by the content"""
+    form = (sum(int(b) for b in a[0]) + 2 * int(a[1]) + len(a[0])) % (4 if text_ok else 3)
+    if form == 1 and len(a[0]) >= 2:
+        ROUTES[0] = False
+        try:
+            return P(a).as_monomial()
+        finally:
+            ROUTES[0] = True
+    if form == 3 and len(a[0]) >= 2:
+        return _pstr(a)
+    return P(a)
+
+
 def _ctor_route(qs, gen_):
     """a rotation gate is as often built by the library's own constructor as by hand: when the generator is non-trivial on every declared qubit (so that its support IS the
     declared qubits, in ascending order) a third of the gates go through clifford_rotation_gate(full-width generator) and a third through
@@ -215,10 +252,10 @@ def _ctor_route(qs, gen_):
         full = [0] * (2 * W)
         for i, q in enumerate(qs):
             full[2 * q], full[2 * q + 1] = int(g[2 * i]), int(g[2 * i + 1])
-        return CI.clifford_rotation_gate(P([full, p]))
+        return CI.clifford_rotation_gate(GEN([full, p], text_ok=True))
     if route == 1:
         import numpy as _np
-        return CI.clifford_rotation_gate(P([list(g), p]), _np.array(qs))
+        return CI.clifford_rotation_gate(GEN([list(g), p], text_ok=True), _np.array(qs))
     return None
 
 
@@ -344,7 +381,7 @@ def _(m, mask, l):
 @op('rotate')
 def _(gen, mask, l):
     o = RCV(PL(l))
-    o.rotate_by(P(gen), mask=optmask(mask))
+    o.rotate_by(GEN(gen), mask=optmask(mask))
     return oPL(o)
 @op('rotate_seq')
 def _(gms, l):
@@ -384,7 +421,7 @@ def _(big, small, m):
     h, r = oPL(host), (oPL(ret) if ret is not None else None)
     return h if r == h else ['host', h, 'returned', r]
 @op('rotation_map')
-def _(gen): return oPL(ST.clifford_rotation_map(P(gen)))
+def _(gen): return oPL(ST.clifford_rotation_map(GEN(gen, text_ok=True)))
 @op('map_to_state')
 def _(m):
     c = RCV(CM(m))
